@@ -76,15 +76,22 @@ def expected_value(idx):
     return {0: "inf", 1: "nan", 2: Fraction(0), 3: Fraction(1), 4: None}[idx]
 
 
-def check_case(ctx, itype, scen, table, std, pred, ref, cache):
-    cfg = {"input": itype, "imetrics": IM, "gmetrics": [], "table": table, "std": std}
-    ev = impl.make_evaluator(cfg)
+def check_case(ctx, itype, scen, table, std, pred, ref, cache, ev=None, im=None, extra=None):
+    """ev: an evaluator built earlier with (table, std) (other handlers may have been constructed since); im: evaluated metrics"""
+    im_ = im or IM
+    cfg = {"input": itype, "imetrics": im_, "gmetrics": [], "table": table, "std": std}
+    if ev is None:
+        ev = impl.make_evaluator(cfg)
     out = impl.evaluate(ev, pred.copy(), ref.copy())
     npi, nri = count_instances(pred, itype), count_instances(ref, itype)
     case = {"input": itype, "scenario": scen, "table": table, "std": std, "pred": pred, "ref": ref}
+    if im is not None:
+        case["imetrics"] = im
+    if extra:
+        case.update(extra)
     si = SCEN.index(scen)
-    inj = len({table[m][k] for k in range(4) for m in ["IOU"]}) >= 3
-    ctx.count({"input": itype, "scenario": scen, "table": table["IOU"], "std": std}, nontrivial=inj)
+    inj = len({table[m][k] for k in range(4) for m in [im_[0]]}) >= 3
+    ctx.count({"input": itype, "scenario": scen, "table": table[im_[0]], "metrics": im_, "std": std}, nontrivial=inj)
     ctx.bump(f"{itype}/{scen}")
     if isinstance(out, tuple):
         ctx.violation("zero-TP evaluation raised", {**case, "observed": out})
@@ -95,7 +102,7 @@ def check_case(ctx, itype, scen, table, std, pred, ref, cache):
         bad.append(f"tp={r.get('tp')}")
     if r.get("fp") != npi or r.get("fn") != nri:
         bad.append(f"fp={r.get('fp')} fn={r.get('fn')} but instance counts are {npi}/{nri}")
-    for m in IM:
+    for m in im_:
         e = r["metrics"].get(m)
         if e is None:
             bad.append(f"{m} missing")
@@ -162,6 +169,31 @@ def run(ctx):
         res = check_case(ctx, it, sc, table, std, pred, ref, None)
         if res:
             recs.append((it, sc, table, std) + res)
+    # several handlers alive at once (custom tables, tables that list exactly the evaluated metrics, default-constructed ones):
+    # all evaluators of a batch are built FIRST and used afterwards in another order -- a handler's prescription must not
+    # depend on which other handlers were constructed after it
+    for _ in range(ctx.scale(12, 120)):
+        batch = []
+        for k in range(rng.randint(3, 6)):
+            it = rng.choice(["matched", "unmatched", "semantic"])
+            kind = rng.choice(["full", "exact", "default"])
+            im = IM if kind != "exact" else rng.choice([["DSC", "IOU"], ["IOU"], ["DSC", "IOU", "ASSD"], ["RVD", "DSC"]])
+            if kind == "default":
+                table, std, tarb = {m: list(v) for m, v in impl.DEFAULT_TABLE.items()}, 1, None
+            else:
+                table = {m: [rng.randrange(5) for _ in range(4)] for m in (impl.METRICS if kind == "full" else im)}
+                std, tarb = rng.randrange(5), table
+            ev = impl.make_evaluator({"input": it, "imetrics": im, "gmetrics": [], "table": tarb, "std": std})
+            batch.append((it, kind, im, table, std, ev))
+        order = list(range(len(batch)))
+        rng.shuffle(order)
+        spec = [[b[0], b[1], b[2], b[3] if b[1] != "default" else None, b[4]] for b in batch]
+        for j in order:
+            it, kind, im, table, std, ev = batch[j]
+            sc = rng.choice(SCEN)
+            pred, ref = scenario_inputs(rng, it, sc)
+            check_case(ctx, it, sc, table, std, pred, ref, None, ev=ev, im=im,
+                       extra={"coexisting": spec, "index": j, "default_constructed": kind == "default"})
     # default handler (constructed without arguments) on every scenario: ties Gen default table to behaviour
     for (it, sc), (pred, ref) in reps.items():
         res = check_case(ctx, it, sc, {m: list(v) for m, v in impl.DEFAULT_TABLE.items()}, 1, pred, ref, None)
@@ -199,14 +231,22 @@ def replay(path):
     common.serial_pool()
     d = json.loads(open(path).read())
     pred, ref = common.arr_from_json(d["pred"]), common.arr_from_json(d["ref"])
-    cfg = {"input": d["input"], "imetrics": IM, "gmetrics": [], "table": d.get("table") or d.get("table1"), "std": d.get("std", 1)}
-    out = impl.evaluate(impl.make_evaluator(cfg), pred, ref)
+    cfg = {"input": d["input"], "imetrics": d.get("imetrics") or IM, "gmetrics": [], "table": d.get("table") or d.get("table1"), "std": d.get("std", 1)}
+    if d.get("coexisting"):
+        # rebuild the whole batch of handlers in the recorded order, then use the recorded one
+        evs = [impl.make_evaluator({"input": it, "imetrics": im, "gmetrics": [], "table": tb, "std": sd}) for it, kind, im, tb, sd in d["coexisting"]]
+        ev = evs[d["index"]]
+        print(f"{len(evs)} evaluators with different handlers were constructed; using number {d['index']}"
+              + (" (default-constructed)" if d.get("default_constructed") else ""))
+    else:
+        ev = impl.make_evaluator(cfg)
+    out = impl.evaluate(ev, pred, ref)
     print("implementation:", out if isinstance(out, tuple) else common.jsonable(impl.canon_result(out["ungrouped"][0])))
     if "scenario" in d:
         si = SCEN.index(d["scenario"])
-        print("prescribed sq:", {m: impl.ECR[cfg["table"][m][si]] for m in IM}, "std:", impl.ECR[cfg["std"]])
+        print("prescribed sq:", {m: impl.ECR[cfg["table"][m][si]] for m in cfg["imetrics"]}, "std:", impl.ECR[cfg["std"]])
     ctx = common.Ctx("C08", "quick", 0)
     if "scenario" in d:
-        check_case(ctx, d["input"], d["scenario"], cfg["table"], cfg["std"], pred, ref, None)
+        check_case(ctx, d["input"], d["scenario"], cfg["table"], cfg["std"], pred, ref, None, ev=ev, im=d.get("imetrics"))
     print("violations:", [w for w, _ in ctx.violations])
     return 1 if ctx.violations else 0
